@@ -243,3 +243,16 @@ package cert
 //@   loop 0 invariant [quiet] tracelen(asked) == old(tracelen(asked)) && tracelen(inserted) == old(tracelen(inserted)) && cinv(cache)
 //@   modifies cache.entries[*], cache.accessOrder, trace(hw), trace(hid), trace(asked), trace(inserted), trace(ws), alloc
 //@   preserves Cache
+
+// The cache is built with exactly the configured capacity (at least one entry, so evict never
+// meets an empty list with a full cache), around the given scheme, and starts empty.
+//@ func NewAuthority property C11
+//@   requires config != nil && base != nil
+//@   requires config.cacheSize <= 4611686018427387904
+//@   ensures [cache-present] config.cacheSize > 0 ==> istype(result.Base, *Cache) && as(result.Base, *Cache) != nil
+//@   ensures [cache-capacity] config.cacheSize > 0 ==> as(result.Base, *Cache).capacity == config.cacheSize && as(result.Base, *Cache).capacity >= 1
+//@   ensures [cache-wraps-the-scheme] config.cacheSize > 0 ==> as(result.Base, *Cache).impl == base && as(result.Base, *Cache).entries != nil
+//@   ensures [cache-starts-empty] config.cacheSize > 0 ==> (forall k string :: {has(as(result.Base, *Cache).entries, k)} !has(as(result.Base, *Cache).entries, k))
+//@   ensures [no-cache-otherwise] config.cacheSize == 0 ==> result.Base == base
+//@   ensures [wiring] result.config == config && result.blockchain == blockchain
+//@   modifies alloc
